@@ -11,13 +11,29 @@ RULE = ("correspondence: every (frame class, height, width, first variable id, a
         "and on dual().dual(); inner frames 0..5 (thorough 0..7); a malformed stream builds frames from arrays of "
         "inconsistent shapes and negative sizes.  search: an oracle written from the lattice geometry (segments as "
         "pairs of lattice points; no doubled-coordinate or index arithmetic of grid_frame.py) vs the real accessors.  "
-        "A case is non-trivial when it is a distinct (constructor, accessor, coordinates) tuple.")
+        "Second generation (hardening): (a) coordinates far outside the frame (wrap-around candidates -2h-3..-2h, +-300, "
+        "+-2^40) and every int argument created at run time (int(str(v))), frames 7x9, 9x7, 0x12, 12x0, 1x130, 130x1, 0x300, "
+        "300x0 with first variable id 0 and 300 (sizes, doubled coordinates, vertex numbers and ids beyond CPython's small-int "
+        "cache); (b) other call forms: list / one-shot iterator / keyword arguments for __getitem__, cell_neighbors, "
+        "vertex_neighbors, and six ways of calling each constructor (keywords, explicit None, one or both arrays supplied by "
+        "the caller; ids renamed where the allocation order differs); (c) histories: scripts of ~75 accessor calls on ONE frame "
+        "object (every accessor at least twice, canonical / reversed / shuffled order, all ordered pairs a,b,a on two sizes; "
+        "iterations abandoned half-way, two iterations alive at once, a dual kept from an earlier call, add_answer_key, "
+        "single_loop, new solver variables in between, the caller emptying the containers an accessor returned).  The model is a "
+        "pure function of the frame record, so each step is compared with the model's answer for that call alone, and after each "
+        "step the frame's arrays and the arrays passed to the constructor must still be what the constructor left.  search: the "
+        "geometric oracle is applied twice to the same object, to frames built by every constructor form and to objects that "
+        "went through a history; every history step is compared with the same call on a frame nothing has been done with "
+        "(failing sessions are shrunk to the calls that matter); every iteration (second, concurrent, after a break) must "
+        "enumerate all_edges().  "
+        "A case is non-trivial when it is a distinct (constructor, accessor, coordinates) tuple resp. (constructor, script, step).")
 TRUSTED = [
     "reading of the property: horizontal[y, x] is the variable on the segment (y,x)-(y,x+1), vertical[y, x] on (y,x)-(y+1,x); lattice points / cells are numbered row-major in the inferred graphs (Array/Frame.v: frame_of, iframe_of, point_id)",
     "the model of Array2D indexing it builds on (Array/Slice.v getitem2), tied to array.py by check C13",
 ]
 ASSUMPTIONS = [
-    "coordinates are Python ints (bool/float/other key types are outside the model)",
+    "coordinates are Python ints (bool/float/other key types are outside the model); a list or a one-shot iterator of two ints is read like the tuple",
+    "histories: the model has no state, i.e. it specifies that no accessor has a side effect visible through any other accessor; add_answer_key is used at most once per session (a second registration of the same variables is a ValueError by design)",
     "theorems about geometry assume 0 <= h, 0 <= w and a frame whose two arrays have the constructor's shapes (frame_of); oob/TypeError/dual theorems hold for every frame record",
     "inner frames with height or width 0 are modelled as the code behaves (ValueError from Array2D unless both are 0), the geometric theorems need H, W >= 1",
 ]
@@ -572,18 +588,18 @@ def gen_cases2(ctx):
         for w in range(n):
             c = ("F", 0, h, w)
             for Y in far_values(2 * h):
-                for X in (-1, 0, 1, 2 * w):
+                for X in sorted({-1, 0, 1, 2 * w}):
                     yield c, ("G", Y, X)
                     yield c, ("DD", "G", Y, X)
             for X in far_values(2 * w):
-                for Y in (-1, 0, 1, 2 * h):
+                for Y in sorted({-1, 0, 1, 2 * h} - set(far_values(2 * h))):
                     yield c, ("G", Y, X)
             for y in far_values(h):
-                for x in (0, w - 1, w):
+                for x in sorted({0, w - 1, w}):
                     yield c, ("CN", "2", y, x)
                     yield c, ("VN", "t", y, x)
             for x in far_values(w):
-                for y in (0, h - 1, h):
+                for y in sorted({0, h - 1, h}):
                     yield c, ("CN", "t", y, x)
                     yield c, ("VN", "2", y, x)
             for y in range(-2, 2 * h + 3):
@@ -828,8 +844,9 @@ def check_frame(ctx, tag, f, h, w, anchor=None, depth=0):
         return bad("vars", "segments do not carry pairwise distinct variables")
     if anchor is not None:
         for sg in segs:
-            if here[sg] is not anchor[sg]:
-                return bad("anchor:%s" % _sk(sg), "variable moved to another segment", segment=sorted(sg))
+            if sg in anchor and here[sg] is not anchor[sg]:
+                return bad("anchor:%s" % _sk(sg), "variable moved to another segment", segment=sorted(sg),
+                           expected=getattr(anchor[sg], "id", None), got=getattr(here[sg], "id", None))
     var = here
 
     def name(v):
@@ -842,40 +859,71 @@ def check_frame(ctx, tag, f, h, w, anchor=None, depth=0):
     for sg in segs:
         p, q = tuple(sg)
         mids[(p[0] + q[0], p[1] + q[1])] = sg
-    for Y in range(-3, 2 * h + 4):
-        for X in range(-3, 2 * w + 4):
-            ctx.prop_case("getitem", (tag, h, w, Y, X, depth))
-            r = vlib.guarded(lambda: f[Y, X])
-            if (Y, X) in mids:
-                if r[0] != "ok" or r[1] is not var[mids[(Y, X)]]:
-                    bad("getitem:%d,%d" % (Y, X), "frame[Y, X] is not the variable on the segment with that midpoint",
-                        coords=[Y, X], segment=sorted(mids[(Y, X)]), expected=name(var[mids[(Y, X)]]), got=name(r[1]))
-            elif r != ("err", "IndexError"):
-                bad("getitem:%d,%d" % (Y, X), "frame[Y, X] for a position that is not a segment midpoint must raise IndexError",
-                    coords=[Y, X], got=name(r[1]))
+    window = [(Y, X) for Y in range(-3, 2 * h + 4) for X in range(-3, 2 * w + 4)]
+    if depth == 0:
+        # far outside: wrap-around candidates, ints no interpreter cache holds
+        near_y, near_x = sorted({-1, 0, 1, 2 * h - 1, 2 * h}), sorted({-1, 0, 1, 2 * w - 1, 2 * w})
+        seen = set(window)
+        for (Y, X) in [(Y, X) for Y in far_values(2 * h) for X in near_x] + [(Y, X) for X in far_values(2 * w) for Y in near_y]:
+            if (Y, X) not in seen:
+                seen.add((Y, X))
+                window.append((Y, X))
+    for (Y, X) in window:
+        Y, X = fresh(Y), fresh(X)
+        ctx.prop_case("getitem", (tag, h, w, Y, X, depth))
+        r = vlib.guarded(lambda: f[Y, X])
+        if (Y, X) in mids:
+            if r[0] != "ok" or r[1] is not var[mids[(Y, X)]]:
+                bad("getitem:%d,%d" % (Y, X), "frame[Y, X] is not the variable on the segment with that midpoint",
+                    coords=[Y, X], segment=sorted(mids[(Y, X)]), expected=name(var[mids[(Y, X)]]), got=name(r[1]))
+        elif r != ("err", "IndexError"):
+            bad("getitem:%d,%d" % (Y, X), "frame[Y, X] for a position that is not a segment midpoint must raise IndexError",
+                coords=[Y, X], got=name(r[1]))
+        if depth == 0 and "~" not in tag and -3 <= Y <= 2 * h + 3 and -3 <= X <= 2 * w + 3:
+            # the key as a list / as a one-shot iterator of the same two ints
+            for kn, key in (("list", [Y, X]), ("iterator", iter((Y, X))), ("generator", (v for v in (Y, X)))):
+                ctx.prop_case("getitem-key", (tag, h, w, Y, X, kn))
+                r2 = vlib.guarded(lambda: f[key])
+                if r2[0] != r[0] or r2[1] is not r[1] and r2[1] != r[1]:
+                    bad("getitem-%s:%d,%d" % (kn, Y, X), "frame[key] with the coordinates given as a %s differs from frame[Y, X]" % kn,
+                        coords=[Y, X], with_tuple=name(r[1]), got=name(r2[1]))
     # cell_neighbors / vertex_neighbors
-    for y in range(-3, h + 4):
-        for x in range(-3, w + 4):
-            for form in (0, 1):
-                args = ((y, x),) if form else (y, x)
-                ctx.prop_case("cell_neighbors", (tag, h, w, y, x, form, depth))
-                r = vlib.guarded(lambda: f.cell_neighbors(*args))
-                if (y, x) in cells:
-                    exp = [var[sg] for sg in segs if sg <= _corners((y, x))]
-                    if r[0] != "ok" or type(r[1]) is not BoolArray1D or len(exp) != 4 or not _same(r[1].data, exp):
-                        bad("cell_neighbors:%d,%d" % (y, x), "cell_neighbors is not the set of the 4 sides of the cell",
-                            cell=[y, x], expected=sorted(name(v) for v in exp), got=name(r[1]) if r[0] != "ok" else [name(v) for v in r[1]])
-                elif r != ("err", "IndexError"):
-                    bad("cell_neighbors:%d,%d" % (y, x), "cell outside the frame must raise IndexError", cell=[y, x], got=name(r[1]))
-                ctx.prop_case("vertex_neighbors", (tag, h, w, y, x, form, depth))
-                r = vlib.guarded(lambda: f.vertex_neighbors(*args))
-                if (y, x) in pts:
-                    exp = [var[sg] for sg in segs if (y, x) in sg]
-                    if r[0] != "ok" or type(r[1]) is not BoolArray1D or not _same(r[1].data, exp):
-                        bad("vertex_neighbors:%d,%d" % (y, x), "vertex_neighbors is not the set of segments ending at the point",
-                            point=[y, x], expected=sorted(name(v) for v in exp), got=name(r[1]) if r[0] != "ok" else [name(v) for v in r[1]])
-                elif r != ("err", "IndexError"):
-                    bad("vertex_neighbors:%d,%d" % (y, x), "point outside the frame must raise IndexError", point=[y, x], got=name(r[1]))
+    cwin = [(y, x) for y in range(-3, h + 4) for x in range(-3, w + 4)]
+    if depth == 0:
+        seen = set(cwin)
+        for (y, x) in [(y, x) for y in far_values(h) for x in sorted({0, w - 1, w})] + [(y, x) for x in far_values(w) for y in sorted({0, h - 1, h})]:
+            if (y, x) not in seen:
+                seen.add((y, x))
+                cwin.append((y, x))
+    for (y, x) in cwin:
+        y, x = fresh(y), fresh(x)
+        near = depth == 0 and "~" not in tag and -2 <= y <= h + 1 and -2 <= x <= w + 1
+        for form in ((0, 1, 2, 3, 4, 5) if near else (0, 1)):
+            # two ints / one tuple / a list / a one-shot iterator / keywords / keyword tuple
+            kwargs = {}
+            args = [(y, x), ((y, x),), ([y, x],), (iter((y, x)),), (), ()][form]
+            if form >= 4:
+                kwargs = {"x": x, "y": y} if form == 4 else {"y": (y, x)}
+            ctx.prop_case("cell_neighbors", (tag, h, w, y, x, form, depth))
+            r = vlib.guarded(lambda: f.cell_neighbors(*args, **kwargs))
+            if (y, x) in cells:
+                exp = [var[sg] for sg in segs if sg <= _corners((y, x))]
+                if r[0] != "ok" or type(r[1]) is not BoolArray1D or len(exp) != 4 or not _same(r[1].data, exp):
+                    bad("cell_neighbors:%d,%d" % (y, x), "cell_neighbors is not the set of the 4 sides of the cell",
+                        cell=[y, x], expected=sorted(name(v) for v in exp), got=name(r[1]) if r[0] != "ok" else [name(v) for v in r[1]])
+            elif r != ("err", "IndexError"):
+                bad("cell_neighbors:%d,%d" % (y, x), "cell outside the frame must raise IndexError", cell=[y, x], got=name(r[1]))
+            ctx.prop_case("vertex_neighbors", (tag, h, w, y, x, form, depth))
+            if form == 3:
+                args = (iter((y, x)),)
+            r = vlib.guarded(lambda: f.vertex_neighbors(*args, **kwargs))
+            if (y, x) in pts:
+                exp = [var[sg] for sg in segs if (y, x) in sg]
+                if r[0] != "ok" or type(r[1]) is not BoolArray1D or not _same(r[1].data, exp):
+                    bad("vertex_neighbors:%d,%d" % (y, x), "vertex_neighbors is not the set of segments ending at the point",
+                        point=[y, x], expected=sorted(name(v) for v in exp), got=name(r[1]) if r[0] != "ok" else [name(v) for v in r[1]])
+            elif r != ("err", "IndexError"):
+                bad("vertex_neighbors:%d,%d" % (y, x), "point outside the frame must raise IndexError", point=[y, x], got=name(r[1]))
     # all_edges / iteration: every segment exactly once, same order both ways
     ctx.prop_case("all_edges", (tag, h, w, depth))
     ae = vlib.guarded(lambda: list(f.all_edges().data))
@@ -966,7 +1014,7 @@ def check_inner(ctx, tag, i, H, W, anchor=None, depth=0):
         return bad("vars", "borders do not carry pairwise distinct variables")
     if anchor is not None:
         for b in borders:
-            if here[b] is not anchor[b]:
+            if b in anchor and here[b] is not anchor[b]:
                 return bad("dual_swaps:%s" % _sk(b), "the border between two cells of the dual is not the variable of the primal segment joining them",
                            cells=sorted(b), expected=getattr(anchor[b], "id", None), got=getattr(here[b], "id", None))
     it = vlib.guarded(lambda: list(iter(i)))
@@ -1098,6 +1146,22 @@ def check_history(ctx, tag, ctor, nm, script):
     return o
 
 
+def given_anchor(cls, h, w, given):
+    """segment (pair of lattice points; for an inner frame: pair of adjacent cells) -> the variable the caller's own
+    array holds for it"""
+    out = {}
+    for nm, a in given:
+        sh = tuple(a.shape)
+        for y in range(sh[0]):
+            for x in range(sh[1]):
+                if cls == "F":
+                    sg = ((y, x), (y, x + 1)) if nm == "h" else ((y, x), (y + 1, x))
+                else:
+                    sg = ((y, x), (y + 1, x)) if nm == "h" else ((y, x), (y, x + 1))
+                out[frozenset(sg)] = a[y, x]
+    return out
+
+
 PAIR_SIZES = {"F": ((1, 1), (2, 3), (0, 2), (2, 0)), "I": ((2, 3), (3, 1))}
 
 
@@ -1127,14 +1191,19 @@ def search_one(ctx, cls, h, w):
     if small or (h, w) in ((7, 9), (1, 130)):
         for form in FORMS:
             ctor = (cls + "v", 1 + (h + w) % 2 * 300, h, w, form)
-            r = vlib.guarded(build, ctor)
+            r = vlib.guarded(build3, ctor)
             if r[0] != "ok":
                 ctx.violation("%s~%s:ctor" % (tag, form), "constructor raised", {"frame": tag, "ctor": list(ctor), "got": r[1]})
                 continue
+            # the variables the caller put on the segments (read off the caller's arrays) must be the frame's
+            anchor = vlib.guarded(given_anchor, cls, h, w, r[1][2])
+            if anchor[0] != "ok":
+                ctx.violation("%s~%s:given" % (tag, form), "the arrays passed to the constructor can no longer be read", {"frame": tag, "ctor": list(ctor), "got": anchor[1]})
+                continue
             if cls == "F":
-                check_frame(ctx, "%s~%s" % (tag, form), r[1][0], h, w)
+                check_frame(ctx, "%s~%s" % (tag, form), r[1][0], h, w, anchor=anchor[1])
             else:
-                check_inner(ctx, "%s~%s" % (tag, form), r[1][0], h, w)
+                check_inner(ctx, "%s~%s" % (tag, form), r[1][0], h, w, anchor=anchor[1])
             check_involution(ctx, "%s~%s" % (tag, form), r[1][0])
     # sessions on one object
     rng = size_rng(ctx, cls, h, w)
